@@ -179,8 +179,9 @@ fn qq_to_expression_list(
                 f_qq <- qq_to_expression(opts.clone(), f.clone());
                 r_qq <- qq_to_expression_list(opts, r.clone());
                 Ok(BodyForm::Call(l.clone(), vec!(
+                    // Cons, by opcode: a user function may be called c.
                     Rc::new(BodyForm::Value(
-                        SExp::Atom(l.clone(), "c".as_bytes().to_vec())
+                        SExp::Atom(l.clone(), vec![4])
                     )),
                     Rc::new(f_qq),
                     Rc::new(r_qq)
